@@ -96,10 +96,13 @@ package smtp
 //@   ensures @C04 result-can-be-quoted-in-a-reply: replyText(r) && noCRLF(r)
 //@   ensures @C04 clean-text-is-kept: (forall k :: 0 <= k && k < len(s) ==> (s[k] >= 32 && s[k] != 127) || s[k] == 9) ==> r == s
 //@   ensures len(r) == len(s)
+//@   ensures @C04 octet-by-octet-only-what-must-not-appear-is-replaced: forall k :: 0 <= k && k < len(s) ==> r[k] == (((s[k] >= 32 && s[k] != 127) || s[k] == 9) ? s[k] : 63)
 //@   loop 1:
 //@     invariant 0 <= i && i <= len(s) && (forall k :: 0 <= k && k < i ==> (s[k] >= 32 && s[k] != 127) || s[k] == 9)
 //@   loop 2:
 //@     invariant 0 <= i && i <= len(b) && len(b) == len(s) && !wasalloc(b) && (forall k :: 0 <= k && k < i ==> (b[k] >= 32 && b[k] != 127) || b[k] == 9)
+//@     invariant forall k :: 0 <= k && k < i ==> b[k] == (((s[k] >= 32 && s[k] != 127) || s[k] == 9) ? s[k] : 63)
+//@     invariant forall k :: i <= k && k < len(b) ==> b[k] == s[k]
 
 //@ contract (*Conn).writeResponse(c, code, enhCode, text)
 //@   prop C04 C17
@@ -230,6 +233,7 @@ package smtp
 //@   before Session.Mail: @C11,C14 envid-is-the-decoded-value-or-empty: (has(args, "ENVID") ==> $2.EnvelopeID == xtextDec(args["ENVID"])) && (!has(args, "ENVID") ==> $2.EnvelopeID == "")
 //@   before Session.Mail: @C11,C14 auth-set-iff-present: ($2.Auth != nil) == has(args, "AUTH")
 //@   before Session.Mail: @C11,C14 path-was-accepted-by-the-parser: resultof("(*parser).parseReversePath", 1, 2) == nil && resultof("parseArgs", 1, 2) == nil
+//@   before (*Conn).writeResponse: @C06 a-declared-size-is-refused-only-when-it-exceeds-the-limit: $1 == 552 ==> c.server.MaxMessageBytes > 0 && puVal(value, 10) > c.server.MaxMessageBytes
 //@   before Session.Mail: @C11,C14 size-was-well-formed: has(args, "SIZE") ==> puOK(args["SIZE"], 10, 32)
 //@   before Session.Mail: @C11,C14 body-value-is-a-known-one: has(args, "BODY") ==> upperOf(args["BODY"]) == "7BIT" || upperOf(args["BODY"]) == "8BITMIME" || upperOf(args["BODY"]) == "BINARYMIME"
 //@   before Session.Mail: @C11,C14 ret-value-is-a-known-one: has(args, "RET") ==> upperOf(args["RET"]) == "FULL" || upperOf(args["RET"]) == "HDRS"
@@ -346,6 +350,8 @@ package smtp
 //@   modifies c.text.R.pos, c.text.R.iofail, c.text.R.unreadable, c.readErr
 //@   ensures c.text.R.pos >= old(c.text.R.pos) && c.readErr == (old(c.readErr) || err != nil)
 //@   ensures @C19 a-line-handed-to-the-command-loop-is-within-the-limit: err == nil && c.server.MaxLineLength > 0 ==> len(line) + 1 <= c.server.MaxLineLength
+//@   ensures @C04,C19 a-line-returned-was-taken-from-the-stream: err == nil ==> c.text.R.pos > old(c.text.R.pos)
+//@   ensures @C19 a-line-that-was-read-is-refused-for-its-length-only-beyond-a-configured-limit: called("(*bufio.Reader).ReadString") && c.text.R.pos > old(c.text.R.pos) && resultof("(*bufio.Reader).ReadString", 1, 2) == nil && err != nil ==> c.server.MaxLineLength > 0 && len(resultof("(*bufio.Reader).ReadString", 1, 1)) > c.server.MaxLineLength
 //@   ensures @C19 what-a-read-error-cuts-short-is-not-a-line: c.text.R.iofail && !old(c.text.R.iofail) ==> err != nil
 
 //@ contract (*Conn).handleStartTLS(c)
@@ -390,7 +396,7 @@ package smtp
 //@   ensures one-slot-per-recipient: status != nil && status.statusMap != nil && len(status.status) == len(c.recipients)
 //@   ensures every-recipient-has-a-channel: forall i :: 0 <= i && i < len(c.recipients) ==> has(status.statusMap, c.recipients[i]) && status.statusMap[c.recipients[i]] != nil
 //@   ensures @C13 slot-i-is-the-channel-of-recipient-i: forall i :: 0 <= i && i < len(c.recipients) ==> status.status[i] == status.statusMap[c.recipients[i]]
-//@   ensures @C13 channels-are-new-and-empty: forall a: string :: has(status.statusMap, a) ==> status.statusMap[a] != nil && !wasalloc(status.statusMap[a]) && len(status.statusMap[a]) == 0 && cap(status.statusMap[a]) >= 1
+//@   ensures @C13 channels-are-new-and-empty: forall a: string :: has(status.statusMap, a) ==> status.statusMap[a] != nil && !wasalloc(status.statusMap[a]) && alloc(status.statusMap[a]) && len(status.statusMap[a]) == 0 && cap(status.statusMap[a]) >= 1
 //@   ensures @C13 different-recipients-have-different-channels: forall a: string :: forall b: string :: has(status.statusMap, a) && has(status.statusMap, b) && a != b ==> status.statusMap[a] != status.statusMap[b]
 //@   loop 1:
 //@     invariant rcptCounts != nil && status != nil && !wasalloc(status) && !wasalloc(rcptCounts) && status.statusMap != nil && !wasalloc(status.statusMap) && status.statusMap != rcptCounts
@@ -441,12 +447,14 @@ package smtp
 //@ contract (*Conn).handleDataLMTP$1$1()
 //@   prop C13 C20
 //@   requires c != nil && c.server != nil && c.conn != nil && c.server.ErrorLog != nil && status != nil && done != nil
+//@   requires channels-of-different-element-types-are-different-channels: forall a: string :: has(status.statusMap, a) ==> status.statusMap[a] != done
 //@   modifies *chan
 //@   ensures @C13,C20 a-recovered-panic-still-answers-every-recipient: len(done) != old(len(done)) ==> (forall a: string :: has(status.statusMap, a) ==> len(status.statusMap[a]) >= cap(status.statusMap[a]))
 
 //@ contract (*Conn).handleBdat$1$1()
 //@   prop C13 C20
 //@   requires c != nil && c.server != nil && c.conn != nil && c.server.ErrorLog != nil && dataResult != nil && r != nil
+//@   requires the-result-channel-is-not-a-recipient-channel: status != nil ==> (forall a: string :: has(status.statusMap, a) ==> status.statusMap[a] != dataResult)
 //@   modifies *chan
 //@   ensures @C13,C20 a-recovered-panic-still-answers-every-recipient: len(dataResult) != old(len(dataResult)) && status != nil ==> (forall a: string :: has(status.statusMap, a) ==> len(status.statusMap[a]) >= cap(status.statusMap[a]))
 
@@ -479,6 +487,13 @@ package smtp
 //@   ensures @C05 framing: bdatDeclaredOK(arg) ==> c.text.R.pos == old(c.text.R.pos) + bdatDeclared(arg) || c.text.R.iofail
 //@   ensures @C05 nothing-read-for-malformed-command: !bdatDeclaredOK(arg) ==> c.text.R.pos == old(c.text.R.pos)
 //@   ensures @C04 one-final-reply: !c.server.LMTP ==> c.finals == old(c.finals) + 1 && c.replies == old(c.replies) + 1
+//@   before (*Conn).reset: @C04,C13 lmtp-a-completely-received-message-is-answered-once-per-recipient-whatever-the-verdict: c.server.LMTP && c.bdatPipe != nil && c.bdatPipe.state == 2 ==> c.finals == old(c.finals) + len(c.recipients) && c.recipients == old(c.recipients)
+//@   before (*Conn).Close: @C04,C13 lmtp-a-completely-received-message-is-answered-once-per-recipient-even-after-a-panic: c.server.LMTP && c.bdatPipe != nil && c.bdatPipe.state == 2 ==> c.finals == old(c.finals) + len(c.recipients) && c.recipients == old(c.recipients)
+//@   before (*Conn).reset: @C04 smtp-a-completely-received-message-is-answered-once: !c.server.LMTP && c.bdatPipe != nil && c.bdatPipe.state == 2 ==> c.finals == old(c.finals) + 1
+//@   before (*Conn).discardChunk: @C06 a-chunk-is-refused-for-size-only-when-it-takes-the-message-over-the-limit: c.lastCode == 552 ==> c.server.MaxMessageBytes != 0 && c.bytesReceived + $1 > c.server.MaxMessageBytes
+//@   before (*Conn).reset: @C08 after-a-backend-panic-the-connection-is-given-up: err == errPanic ==> c.closed
+//@   before (*Conn).createStatusCollector: @C13 a-collector-is-created-for-a-new-transfer-only: c.bdatStatus == nil && c.bdatPipe == nil && c.server.LMTP
+//@   ensures @C13 an-open-transfer-keeps-its-collector: old(c.bdatStatus) != nil ==> c.bdatStatus == old(c.bdatStatus) || c.bdatStatus == nil
 //@   ensures @C04,C13 lmtp-one-reply-or-one-per-recipient: c.server.LMTP ==> c.finals == old(c.finals) + 1 || (c.finals == old(c.finals) + len(old(c.recipients)) && nfields(arg) == 2 && len(old(c.recipients)) >= 1)
 //@   ensures @C03 out-of-order-refused: !old(c.fromReceived) || len(old(c.recipients)) == 0 ==> c.lastCode >= 500 && c.bdatPipe == nil && c.cbData == old(c.cbData)
 //@   ensures @C03 failed-chunk-ends-transaction: c.lastCode != 250 && old(c.fromReceived) && len(old(c.recipients)) > 0 && bdatDeclaredOK(arg) && !c.closed ==> !c.fromReceived && len(c.recipients) == 0 && c.bdatPipe == nil
@@ -506,6 +521,26 @@ package smtp
 //@   ensures @C04 at-least-one-final-reply-unless-reading-failed: c.finals >= old(c.finals) + 1 || c.readErr
 //@   ensures @C08 no-session-lost: c.cbNew - c.cbLogout == (c.session != nil ? 1 : 0)
 //@   ensures @C19 error-count: c.errCount == old(c.errCount) || c.errCount == old(c.errCount) + 1
+//@   ensures @C08 quit-is-answered-221-and-ends-the-connection: cmd != "" && upperOf(cmd) == "QUIT" ==> c.lastCode == 221 && c.closed && c.session == nil
+
+// The recover handler of the command dispatcher (C08, C04): a panic while a command is handled (a backend
+// callback, typically) is answered 421 and the connection is given up. Verified for the panicking case
+// (recovered()) from any state that satisfies the precondition below; in a non-panicking run it does nothing.
+//@ contract (*Conn).handle$1()
+//@   prop C04 C08 C19
+//@   requires c != nil && c.server != nil && c.conn != nil && c.text != nil && c.server.ErrorLog != nil && sessOK(c)
+//@   modifies c.replies if recovered()
+//@   modifies c.finals if recovered()
+//@   modifies c.lastCode if recovered()
+//@   modifies c.bdatPipe if recovered()
+//@   modifies c.session if recovered()
+//@   modifies c.closed if recovered()
+//@   modifies c.cbLogout if recovered()
+//@   modifies c.bdatPipe.state if recovered() && c.bdatPipe != nil
+//@   modifies c.session.loggedOut if recovered() && c.session != nil
+//@   ensures @C08,C04 a-panic-while-handling-a-command-is-answered-421-and-the-connection-given-up: recovered() ==> c.closed && c.session == nil && c.bdatPipe == nil && c.lastCode == 421 && c.finals == old(c.finals) + 1
+//@   ensures @C08 the-session-is-logged-out-on-the-way: recovered() && old(c.session) != nil ==> old(c.session).loggedOut && c.cbLogout == old(c.cbLogout) + 1
+//@   ensures @C07 an-open-transfer-is-aborted: recovered() && old(c.bdatPipe) != nil && old(old(c.bdatPipe).state) == 0 ==> old(c.bdatPipe).state == 1
 
 //@ contract (*Conn).greet(c)
 //@   prop C04
@@ -522,8 +557,12 @@ package smtp
 //@   ensures @C08 closed-at-exit: c.closed && c.session == nil
 //@   ensures @C08 every-session-logged-out: c.cbNew == c.cbLogout
 //@   ensures @C07 no-transfer-left-open: c.bdatPipe == nil
+//@   ensures @C20 unregistered-at-exit: !has(s.conns, c)
+//@   before (*crypto/tls.Conn).Handshake: @C20 registered-before-anything-that-can-block-so-that-close-reaches-it: has(s.conns, c)
+//@   before (*Conn).greet: @C20 registered-before-the-greeting: has(s.conns, c)
 //@   loop 1:
 //@     invariant connInv(c) && c.server == s && s.conns != nil && s.ErrorLog != nil
+//@     invariant @C20 registered-while-served: has(s.conns, c)
 //@     invariant @C19 line-limit-active: c.lineLimitReader.LineLimit == s.MaxLineLength
 //@     backedge @C19,C08 loop-ends-when-reading-fails: resultof("(*Conn).readLine", 1, 2) == nil
 //@     invariant @C08 no-session-lost: c.cbNew - c.cbLogout == (c.session != nil ? 1 : 0)
@@ -536,6 +575,7 @@ package smtp
 //@   prop C02 C03 C08 C13
 //@   requires c != nil && c.server != nil && c.conn != nil && c.server.ErrorLog != nil && status != nil && done != nil
 //@   requires r != nil && drInv(r) && lmtpSession != nil && sessCur(lmtpSession) && lmtpSession.conn == c && c.fromReceived && len(c.recipients) >= 1
+//@   requires channels-of-different-element-types-are-different-channels: forall a: string :: has(status.statusMap, a) ==> status.statusMap[a] != done
 //@   modifies r.state, r.n, r.delivered, r.limited, r.r.pos, r.r.iofail, r.r.unreadable, c.cbData, *chan
 //@   ensures @C02,C01 drained: r.state == 5 || r.r.iofail
 //@   ensures reader-consistent: drInv(r) && r.r.pos >= old(r.r.pos)
@@ -570,7 +610,9 @@ package smtp
 //@   ensures @C15 exact: (err == nil) == noCRLF(line)
 
 //@ contract (*Client).readResponse(c, expectCode) (code, msg, err)
-//@   prop C15 C16 C18
+//@   prop C15 C16 C17 C18
+//@   ensures @C17 a-negative-reply-is-reported-as-the-smtp-error-parsed-from-it-whatever-was-negotiated: istype(resultof("(*net/textproto.Reader).ReadResponse", 1, 3), "*textproto.Error") ==> istype(err, "*SMTPError") && asref(err, "*SMTPError") == resultof("toSMTPErr", 1, 1) && called("toSMTPErr")
+//@   ensures @C17 any-other-outcome-is-passed-on: !istype(resultof("(*net/textproto.Reader).ReadResponse", 1, 3), "*textproto.Error") ==> err == resultof("(*net/textproto.Reader).ReadResponse", 1, 3)
 //@   requires c != nil && c.text != nil
 //@   modifies c.text.Reader.resps
 //@   ensures c.text.Reader.resps == old(c.text.Reader.resps) + 1
@@ -580,16 +622,18 @@ package smtp
 //@   prop C15
 //@   requires c != nil && c.conn != nil && c.text != nil
 //@   requires @C15 command-is-one-line: noCRLF(fmtline(format, args))
-//@   requires @C15,C16 a-prebuilt-line-is-not-used-as-a-format: len(args) == 0 ==> noPercent(format)
+//@   requires @C14,C15,C16 a-prebuilt-line-is-not-used-as-a-format: len(args) == 0 ==> noPercent(format)
 //@   modifies c.text.cmds, c.text.Reader.resps
 //@   ensures @C15 one-line-written: c.text.cmds == old(c.text.cmds) + 1
 //@   ensures @C09,C16 reply-read-for-every-line-written: c.text.Reader.resps == old(c.text.Reader.resps) + 1 || (err != nil && c.text.Reader.resps == old(c.text.Reader.resps))
 //@   ensures @C09 code-of-the-reply-just-read: err == nil ==> c.text.Reader.lastCode == code
 
 //@ contract (*Client).greet(c) (err)
-//@   prop C15
+//@   prop C15 C17
 //@   requires c != nil && c.conn != nil && c.text != nil
 //@   modifies c.didGreet, c.greetError, c.text.Reader.resps
+//@   ensures @C15,C17 a-refused-greeting-is-remembered-and-reported-again: c.didGreet && err == c.greetError
+//@   ensures @C15,C17 a-refused-greeting-is-an-error: called("(*Client).readResponse") ==> (c.text.Reader.resps != old(c.text.Reader.resps) && resultof("(*Client).readResponse", 1, 3) != nil ==> err != nil)
 
 //@ contract (*Client).helo(c) (err)
 //@   prop C15 C10
@@ -635,16 +679,21 @@ package smtp
 //@   requires clientWF(c)
 //@   modifies c.didGreet, c.greetError, c.didHello, c.helloError, c.ext, c.rcpts, c.text.cmds, c.text.Reader.resps
 //@   ensures @C15 greeting-plus-one: c.text.cmds <= old(c.text.cmds) + 3
+//@   ensures @C18 a-reset-transaction-leaves-no-recipients-behind: err == nil ==> len(c.rcpts) == 0
+//@   ensures @C17,C18 no-success-without-asking-the-server: !called("(*Client).cmd") ==> err != nil
+//@   ensures @C17,C18 a-refused-reset-is-reported: called("(*Client).cmd") ==> (err == nil ==> resultof("(*Client).cmd", 1, 3) == nil)
 //@ contract (*Client).Noop(c) (err)
 //@   prop C15
 //@   requires clientWF(c)
 //@   modifies c.didGreet, c.greetError, c.didHello, c.helloError, c.ext, c.text.cmds, c.text.Reader.resps
 //@   ensures @C15 greeting-plus-one: c.text.cmds <= old(c.text.cmds) + 3
 //@ contract (*Client).Quit(c) (err)
-//@   prop C15
+//@   prop C15 C17
 //@   requires clientWF(c)
 //@   modifies c.didGreet, c.greetError, c.didHello, c.helloError, c.ext, c.text.cmds, c.text.Reader.resps
 //@   ensures @C15 greeting-plus-one: c.text.cmds <= old(c.text.cmds) + 3
+//@   ensures @C17 no-success-without-asking-the-server: !called("(*Client).cmd") ==> err != nil
+//@   ensures @C17 a-refused-quit-is-reported: called("(*Client).cmd") ==> (err == nil ==> resultof("(*Client).cmd", 1, 3) == nil)
 
 // ---------------------------------------------------------------------------------------
 // Encoders (C14, C15)
@@ -745,6 +794,7 @@ package smtp
 //@   ensures @C16 one-terminator: !old(d.closed) ==> d.WriteCloser.closes == old(d.WriteCloser.closes) + 1
 //@   ensures @C16 one-verdict-read: !old(d.closed) && !d.c.lmtp ==> d.c.text.Reader.resps <= old(d.c.text.Reader.resps) + 1
 //@   ensures @C16 success-means-the-verdict-was-read: !old(d.closed) && !d.c.lmtp && err == nil ==> d.c.text.Reader.resps == old(d.c.text.Reader.resps) + 1
+//@   ensures @C16,C17 close-returns-the-servers-verdict-on-the-message: called("(*Client).readResponse") ==> (!old(d.closed) && !d.c.lmtp && d.c.text.Reader.resps == old(d.c.text.Reader.resps) + 1 ==> err == resultof("(*Client).readResponse", 1, 3))
 //@   ensures @C18 exactly-one-reply-per-accepted-recipient: !old(d.closed) && d.c.lmtp && err == nil ==> d.c.text.Reader.resps == old(d.c.text.Reader.resps) + len(old(d.c.rcpts))
 //@   ensures @C18 never-more-replies-than-recipients: d.c.lmtp ==> d.c.text.Reader.resps <= old(d.c.text.Reader.resps) + len(old(d.c.rcpts))
 //@   ensures @C18 recipients-forgotten-when-the-transaction-ends: err == nil ==> len(d.c.rcpts) == 0
@@ -762,6 +812,9 @@ package smtp
 //@   before (*Client).Mail: @C16 sender-as-given: $1 == from
 //@   before (*Client).Data: @C16 every-recipient-given-was-sent-and-accepted-first: rangeindex + 1 >= len(to) && resultof("(*Client).Mail", 1, 1) == nil
 //@   modifies c.didGreet, c.greetError, c.didHello, c.helloError, c.ext, c.rcpts, c.rcpts[**], c.text.cmds, c.text.Reader.resps, *.dataCloser.closed, *.io.WriteCloser.closes, *elems string
+//@   ensures @C16 nothing-is-reported-sent-before-the-message-was-written: !called("io.WriteCloser.Close") ==> err != nil
+//@   ensures @C16 success-means-the-message-was-written-and-its-writer-closed: called("io.WriteCloser.Close") ==> (err == nil ==> resultof("(*Client).Data", 1, 1).closes == old(resultof("(*Client).Data", 1, 1).closes) + 1)
+//@   ensures @C16,C17 the-verdict-on-the-message-is-what-sendmail-returns: called("io.WriteCloser.Close") ==> (resultof("(*Client).Data", 1, 1).closes != old(resultof("(*Client).Data", 1, 1).closes) ==> err == resultof("io.WriteCloser.Close", 1, 1))
 //@   loop 1:
 //@     invariant clientWF(c) && rangeindex < len(to)
 
@@ -830,8 +883,10 @@ package smtp
 //@   ensures @C10 client-is-on-tls: err == nil ==> c != nil && clientWF(c) && istype(c.conn, "*tls.Conn")
 
 //@ contract sendMail(addr, implicitTLS, a, from, to, r) (err)
-//@   prop C10 C15
+//@   prop C10 C15 C16 C17
 //@   requires !istype(r, "*dataReader") && !istype(r, "*io.LimitedReader")
+//@   ensures @C16,C17 no-success-before-the-message-was-sent: !called("(*Client).SendMail") ==> err != nil
+//@   ensures @C16,C17 a-refused-message-is-reported: called("(*Client).SendMail") ==> (err == nil ==> resultof("(*Client).SendMail", 1, 1) == nil)
 //@   before (*Client).Auth: @C10 credentials-only-over-tls: istype(c.conn, "*tls.Conn")
 //@   before (*Client).SendMail: @C10 envelope-and-content-only-over-tls: istype(c.conn, "*tls.Conn") && noCRLF(from)
 //@   modifies *.Client.didGreet, *.Client.greetError, *.Client.didHello, *.Client.helloError, *.Client.ext, *.Client.rcpts, *.Client.conn, *.Client.text, *.textproto.Conn.cmds, *.textproto.Reader.resps, *.dataCloser.closed, *.io.WriteCloser.closes, *elems string
@@ -842,6 +897,7 @@ package smtp
 //@   requires @C04 result-channel-of-this-transfer-is-new-and-empty: dataResult != nil && len(dataResult) == 0 && dataResult == c.dataResult
 //@   requires @C13 collector-and-recipients-of-this-transfer: status == c.bdatStatus && recipients == c.recipients
 //@   requires @C08,C20 session-of-this-transfer: session == c.session
+//@   requires the-result-channel-is-not-a-recipient-channel: status != nil ==> (forall a: string :: has(status.statusMap, a) ==> status.statusMap[a] != dataResult)
 //@   modifies c.cbData, *chan
 //@   ensures @C03 one-data-callback-per-transfer: c.cbData == old(c.cbData) + 1
 
